@@ -180,6 +180,12 @@ def fill(rng, m, depth=0, max_depth=3, p_set=0.6, skip=None, avoid_types=()):
     return m
 
 
+def _is_wkt(m):
+    # an empty google.protobuf.Value has no JSON form: well-known types are
+    # always populated by fill_wkt, whatever the depth budget
+    return m.DESCRIPTOR.full_name.startswith(WKT_PREFIX)
+
+
 def _is_synthetic(o):
     """Synthetic oneof of a proto3 `optional` field (named _<field>, X-prefixed
     by vlib.build on a name clash)."""
@@ -196,7 +202,7 @@ def set_field(rng, m, fd, depth=0, max_depth=3, p_set=0.6, force=False, skip=Non
             if kfd.type == FD.TYPE_STRING:
                 k = rng.choice(["", "a", "k 2", "ü"])
             if vfd.type == FD.TYPE_MESSAGE:
-                if depth < max_depth:
+                if depth < max_depth or _is_wkt(mp[k]):
                     fill(rng, mp[k], depth + 1, max_depth, p_set, skip, avoid_types)
                 else:
                     mp[k].SetInParent()
@@ -209,7 +215,7 @@ def set_field(rng, m, fd, depth=0, max_depth=3, p_set=0.6, force=False, skip=Non
         for _ in range(n):
             if fd.type == FD.TYPE_MESSAGE:
                 sub = rep.add()
-                if depth < max_depth:
+                if depth < max_depth or _is_wkt(sub):
                     fill(rng, sub, depth + 1, max_depth, p_set, skip, avoid_types)
             else:
                 rep.append(scalar_value(rng, fd))
@@ -217,7 +223,7 @@ def set_field(rng, m, fd, depth=0, max_depth=3, p_set=0.6, force=False, skip=Non
     if fd.type == FD.TYPE_MESSAGE:
         sub = getattr(m, fd.name)
         sub.SetInParent()
-        if depth < max_depth:
+        if depth < max_depth or _is_wkt(sub):
             fill(rng, sub, depth + 1, max_depth, p_set, skip, avoid_types)
         return
     v = scalar_value(rng, fd, nonzero=nonzero)
@@ -292,3 +298,25 @@ def snake(name):
             out.append("_")
         out.append(ch.lower())
     return "".join(out)
+
+
+def has_unknown(m):
+    """True when the message (or a sub-message) carries unknown fields."""
+    from google.protobuf import unknown_fields
+    try:
+        if len(unknown_fields.UnknownFieldSet(m)):
+            return True
+    except Exception:
+        pass
+    for fd, v in m.ListFields():
+        if fd.type == FD.TYPE_MESSAGE:
+            if is_map(fd):
+                if fd.message_type.fields_by_name["value"].type == FD.TYPE_MESSAGE:
+                    if any(has_unknown(x) for x in v.values()):
+                        return True
+            elif fd.label == FD.LABEL_REPEATED:
+                if any(has_unknown(x) for x in v):
+                    return True
+            elif has_unknown(v):
+                return True
+    return False
